@@ -612,213 +612,228 @@ end notfound
 section limit
 open Gen.PeStruct C18
 
-theorem prependAppendAtG_seekSet (f : PyFile) (o : Nat) :
-    prependAppendAtG PyFile.seekSet f o = C18.prependAppendAt f o := rfl
-
-theorem seekL_bytesIO (L : Nat) (f : PyFile) (off : Int) (h : f.kind = .bytesIO) : seekL L f off = f.seekSet off := by
-  unfold seekL
-  rw [if_neg]
-  intro hc
-  rw [h] at hc
-  exact absurd hc.1 (by decide)
-
 theorem seekL_le (L : Nat) (f : PyFile) (off : Int) (h : off ≤ (L : Int)) : seekL L f off = f.seekSet off := by
   unfold seekL
   rw [if_neg]
-  intro hc
   omega
 
-theorem leNat_lt (bs : Bytes) : leNat bs < 256 ^ bs.length := by
-  induction bs with
-  | nil => simp [leNat]
-  | cons b bs ih =>
-    simp only [leNat, List.length_cons, Nat.pow_succ]
-    have := b.toNat_lt
-    omega
+theorem seekL_gt (L : Nat) (f : PyFile) (off : Int) (h : (L : Int) < off) :
+    ∃ e, seekL L f off = .error e ∧ seekCaught e = true := by
+  unfold seekL
+  rw [if_pos h]
+  cases f.kind
+  · exact ⟨_, rfl, rfl⟩
+  · exact ⟨_, rfl, rfl⟩
 
-theorem fieldVal_u32_lt (buf : Bytes) (fld : Field) (hs : fld.signed = false) (h4 : fld.size = 4) :
-    fieldVal buf fld < 4294967296 := by
-  unfold fieldVal
-  simp only [hs, Bool.false_and, Bool.false_eq_true, if_false]
-  have h1 := leNat_lt (slice buf fld.off fld.size)
-  have h2 : (slice buf fld.off fld.size).length ≤ 4 := by rw [slice_length, h4]; omega
-  have h3 : 256 ^ (slice buf fld.off fld.size).length ≤ 256 ^ 4 := Nat.pow_le_pow_right (by omega) h2
-  have : (256 : Nat) ^ 4 = 4294967296 := by decide
-  omega
+/-- every exception a limited seek can raise is in the `except (OSError, OverflowError, ValueError)` clause -/
+theorem seekL_errors_caught (L : Nat) (f : PyFile) (off : Int) (e : PyExc) (h : seekL L f off = .error e) :
+    seekCaught e = true := by
+  by_cases hgt : (L : Int) < off
+  · obtain ⟨e', he', hc⟩ := seekL_gt L f off hgt
+    rw [he'] at h
+    injection h with h
+    rw [← h]; exact hc
+  · rw [seekL_le L f off (by omega)] at h
+    unfold PyFile.seekSet at h
+    split at h
+    · injection h with h
+      rw [← h]
+      unfold PyFile.negSeekExc
+      cases f.kind <;> rfl
+    · cases h
 
-theorem foldl_rawsize_le (secs : List Bytes) (init : Int) :
-    secs.foldl (fun acc s => acc + fieldVal s secSizeOfRawData) init ≤ init + 4294967296 * (secs.length : Int) := by
-  induction secs generalizing init with
-  | nil => simp
-  | cons s ss ih =>
-    simp only [List.foldl_cons, List.length_cons]
-    have h1 := ih (init + fieldVal s secSizeOfRawData)
-    have h2 := fieldVal_u32_lt s secSizeOfRawData rfl rfl
-    push_cast
-    omega
-
-theorem totalSize_le (opt : Bytes) (is64 : Bool) (secs : List Bytes) :
-    totalSize opt is64 secs ≤ 4294967296 * ((secs.length : Int) + 1) := by
-  unfold totalSize
-  have h1 := foldl_rawsize_le secs (fieldVal opt (optSizeOfHeaders is64))
-  have h2 : fieldVal opt (optSizeOfHeaders is64) < 4294967296 := by
-    cases is64
-    · exact fieldVal_u32_lt opt opt32SizeOfHeaders rfl rfl
-    · exact fieldVal_u32_lt opt opt64SizeOfHeaders rfl rfl
-  omega
-
-theorem readSections_some : ∀ (n : Nat) (g : PyFile) (secs : List Bytes) (g' : PyFile),
-    readSections n g = (some secs, g') →
-      secs.length = n ∧ g'.data = g.data ∧ g'.kind = g.kind ∧ g.pos + sectionSize * n ≤ max g.pos g.data.length := by
-  intro n
-  induction n with
-  | zero =>
-    intro g secs g' h
-    simp only [readSections, Prod.mk.injEq, Option.some.injEq] at h
-    obtain ⟨rfl, rfl⟩ := h
-    exact ⟨rfl, rfl, rfl, by omega⟩
-  | succ n ih =>
-    intro g secs g' h
-    unfold readSections at h
-    obtain ⟨hd, hk⟩ := readStruct_data g sectionSize
-    have hfst := readStruct_fst g sectionSize
-    rcases hr : readStruct g sectionSize with ⟨r1, g1⟩
-    rw [hr] at h hd hk hfst
-    simp only at hd hk hfst
-    cases r1 with
-    | none => simp at h
-    | some s =>
-      simp only at h
-      rcases hr2 : readSections n g1 with ⟨r2, g2⟩
-      rw [hr2] at h
-      cases r2 with
-      | none => simp at h
-      | some ss =>
-        simp only [Prod.mk.injEq, Option.some.injEq] at h
-        obtain ⟨rfl, rfl⟩ := h
-        obtain ⟨i1, i2, i3, i4⟩ := ih g1 ss g2 hr2
-        have hlen : g.pos + sectionSize ≤ g.data.length := by
-          unfold sliceOpt at hfst
-          split at hfst
-          · rename_i hl
-            rw [slice_length] at hl
-            have : sectionSize = 40 := rfl
-            omega
-          · cases hfst
-        have hpos : g1.pos = g.pos + sectionSize := by
-          obtain ⟨d, p, k⟩ := g
-          rw [readStruct_ok d p k sectionSize hlen] at hr
-          injection hr with _ hr
-          rw [← hr]
-        refine ⟨by simp [i1], by rw [i2, hd], by rw [i3, hk], ?_⟩
-        rw [hd, hpos] at i4
-        simp only [show sectionSize = 40 from rfl] at *
-        omega
-
-/-- `prependAppendAt` with its final seek as a parameter cannot raise as long as that seek accepts the (non-negative)
-offsets `mz_offset + size` that can arise from at most `|data| / 40` section headers -/
+/-- the guarded final seek: whatever the file object's `seek` raises out of {OSError, OverflowError, ValueError} is
+turned into `(prepend, None)`; nothing else can be raised once `mz_offset` points at a DOS header with `e_lfanew > 0` -/
 theorem prependAppendAtG_ok (sk : PyFile → Int → Py (Nat × PyFile)) (f : PyFile) (o : Nat) (mz : Bytes)
     (hmz : sliceOpt f.data o dosHeaderSize = some mz) (hpos : 0 < fieldVal mz dosLfanew)
-    (hsk : ∀ (g : PyFile) (t : Int), g.kind = f.kind → 0 ≤ t →
-      t ≤ (o : Int) + 4294967296 * ((f.data.length / 40 : Nat) + 1) → ∃ r, sk g t = .ok r) :
-    ∃ r, (prependAppendAtG sk f o).1 = .ok r := by
+    (hsk : ∀ (g : PyFile) (t : Int) (e : PyExc), sk g t = .error e → seekCaught e = true) :
+    ∃ r, (prependAppendAtG true sk f o).1 = .ok r := by
   unfold prependAppendAtG
   dsimp only
-  have hd : (if o > 0 then (some ((seekNat f 0).read (o : Int)).1, ((seekNat f 0).read (o : Int)).2) else (none, f)).2.data = f.data
-      ∧ (if o > 0 then (some ((seekNat f 0).read (o : Int)).1, ((seekNat f 0).read (o : Int)).2) else (none, f)).2.kind = f.kind := by
-    split <;> exact ⟨rfl, rfl⟩
+  have hd : (if o > 0 then (some ((seekNat f 0).read (o : Int)).1, ((seekNat f 0).read (o : Int)).2) else (none, f)).2.data = f.data := by
+    split <;> rfl
   generalize (if o > 0 then (some ((seekNat f 0).read (o : Int)).1, ((seekNat f 0).read (o : Int)).2) else (none, f)) = pf at hd
-  obtain ⟨hd, hk⟩ := hd
   have h1 : (readStruct (seekNat pf.2 o) dosHeaderSize).1 = some mz := by rw [readStruct_at, hd]; exact hmz
-  obtain ⟨hd2, hk2⟩ := readStruct_data (seekNat pf.2 o) dosHeaderSize
   rcases hr : readStruct (seekNat pf.2 o) dosHeaderSize with ⟨r1, f2⟩
-  rw [hr] at h1 hd2 hk2
-  simp only at h1 hd2 hk2
+  rw [hr] at h1
+  simp only at h1
   subst h1
   simp only
-  obtain ⟨v, f3, hs, hd3, hk3⟩ := seekSet_ok_of_nonneg f2 (fieldVal mz dosLfanew + (o : Int) + 4) (by omega)
+  obtain ⟨v, f3, hs, _, _⟩ := seekSet_ok_of_nonneg f2 (fieldVal mz dosLfanew + (o : Int) + 4) (by omega)
   rw [hs]
   simp only
-  obtain ⟨hd4, hk4⟩ := readStruct_data f3 fileHeaderSize
-  rcases hr4 : readStruct f3 fileHeaderSize with ⟨r4, f4⟩
-  rw [hr4] at hd4 hk4
-  simp only at hd4 hk4
-  cases r4 with
-  | none => exact ⟨_, rfl⟩
-  | some img =>
-    simp only
-    split
-    · obtain ⟨hd5, hk5⟩ := readStruct_data f4 (optSize (decide (fieldVal img fhMachine = (machineAmd64 : Int))))
-      rcases hr5 : readStruct f4 (optSize (decide (fieldVal img fhMachine = (machineAmd64 : Int)))) with ⟨r5, f5⟩
-      rw [hr5] at hd5 hk5
-      simp only at hd5 hk5
-      cases r5 with
-      | none => exact ⟨_, rfl⟩
-      | some opt =>
-        simp only
-        rcases hr6 : readSections (fieldVal img fhNumberOfSections).toNat f5 with ⟨r6, f6⟩
-        cases r6 with
-        | none => exact ⟨_, rfl⟩
-        | some secs =>
-          simp only
-          obtain ⟨hl6, hd6, hk6, hb6⟩ := readSections_some _ _ _ _ hr6
-          have hkind : f6.kind = f.kind := by
-            rw [hk6, hk5, hk4, hk3, hk2]; exact hk
-          have hdata : f5.data = f.data := by
-            rw [hd5, hd4, hd3, hd2]; exact hd
-          have hn : secs.length ≤ f.data.length / 40 := by
-            rw [hdata] at hb6
-            rw [show sectionSize = 40 from rfl] at hb6
-            rw [Nat.le_div_iff_mul_le (by omega), hl6]
-            omega
-          have ht0 := totalSize_nonneg opt (decide (fieldVal img fhMachine = (machineAmd64 : Int))) secs
-          have ht1 := totalSize_le opt (decide (fieldVal img fhMachine = (machineAmd64 : Int))) secs
-          have hn' : ((secs.length : Nat) : Int) ≤ ((f.data.length / 40 : Nat) : Int) := by exact_mod_cast hn
-          obtain ⟨r, hr⟩ := hsk f6 ((o : Int) + totalSize opt (decide (fieldVal img fhMachine = (machineAmd64 : Int))) secs)
-            hkind (by omega) (by
-              have : (4294967296 : Int) * ((secs.length : Int) + 1) ≤ 4294967296 * (((f.data.length / 40 : Nat) : Int) + 1) := by
-                apply Int.mul_le_mul_of_nonneg_left <;> omega
-              omega)
-          rw [hr]
-          simp only
-          split <;> exact ⟨_, rfl⟩
+  split
+  · exact ⟨_, rfl⟩
+  · split
+    · split
+      · exact ⟨_, rfl⟩
+      · split
+        · exact ⟨_, rfl⟩
+        · split
+          · rename_i e he
+            rw [hsk _ _ e he]
+            exact ⟨_, rfl⟩
+          · split <;> exact ⟨_, rfl⟩
     · exact ⟨_, rfl⟩
 
-theorem findStagePrependAppendL_ok (L : Nat) (f : PyFile)
-    (h : f.kind = .bytesIO ∨ f.data.length + 4294967296 * (f.data.length / 40 + 1) ≤ L) :
-    ∃ r, peFindStagePrependAppendL L f = .ok r := by
-  unfold peFindStagePrependAppendL
+/-- the current `find_stage_prepend_append` on ANY file object whose `seek` raises nothing outside
+{OSError, OverflowError, ValueError} -/
+theorem findStagePrependAppendG_ok (sk : PyFile → Int → Py (Nat × PyFile)) (f : PyFile)
+    (hsk : ∀ (g : PyFile) (t : Int) (e : PyExc), sk g t = .error e → seekCaught e = true) :
+    ∃ r, peFindStagePrependAppendG true sk f = .ok r := by
+  unfold peFindStagePrependAppendG
   rcases hm : findMzOffset f (some 0) MAXRANGE with ⟨r, f1⟩
   cases r with
   | none => exact ⟨_, rfl⟩
   | some o =>
     obtain ⟨hd, hk, mz, hmz, hpos, _⟩ := findMz_some f (some 0) MAXRANGE o f1 hm
-    have ho : o + dosHeaderSize ≤ f.data.length := by
-      unfold sliceOpt at hmz
-      split at hmz
-      · rename_i hl; rw [slice_length] at hl
-        have h64 : dosHeaderSize = 64 := rfl
-        rw [h64] at hl ⊢
-        omega
-      · cases hmz
+    exact prependAppendAtG_ok sk f1 o mz (by rw [hd]; exact hmz) hpos hsk
+
+theorem findStagePrependAppendL_ok (L : Nat) (f : PyFile) : ∃ r, peFindStagePrependAppendL L f = .ok r :=
+  findStagePrependAppendG_ok (seekL L) f (fun g t e h => seekL_errors_caught L g t e h)
+
+/-- with a seek that accepts every non-negative offset the `try/except` is dead code: guarded and unguarded variant are
+both the C18 model -/
+theorem prependAppendAtG_seekSet (guarded : Bool) (f : PyFile) (o : Nat) :
+    prependAppendAtG guarded PyFile.seekSet f o = C18.prependAppendAt f o := by
+  unfold prependAppendAtG C18.prependAppendAt
+  dsimp only
+  generalize (if o > 0 then (some ((seekNat f 0).read (o : Int)).1, ((seekNat f 0).read (o : Int)).2) else (none, f)) = pf
+  rcases readStruct (seekNat pf.2 o) dosHeaderSize with ⟨r1, f2⟩
+  cases r1 with
+  | none => rfl
+  | some mz =>
     simp only
-    apply prependAppendAtG_ok (seekL L) f1 o mz (by rw [hd]; exact hmz) hpos
-    intro g t hg ht0 ht1
-    rw [hd] at ht1
-    cases h with
-    | inl hb =>
-      rw [seekL_bytesIO L g t (by rw [hg, hk]; exact hb)]
-      obtain ⟨v, g', hs, _⟩ := seekSet_ok_of_nonneg g t ht0
-      exact ⟨_, hs⟩
-    | inr hL =>
-      rw [seekL_le L g t (by omega)]
-      obtain ⟨v, g', hs, _⟩ := seekSet_ok_of_nonneg g t ht0
-      exact ⟨_, hs⟩
+    cases f2.seekSet (fieldVal mz dosLfanew + (o : Int) + 4) with
+    | error e => rfl
+    | ok vf3 =>
+      obtain ⟨v, f3⟩ := vf3
+      simp only
+      rcases readStruct f3 fileHeaderSize with ⟨r4, f4⟩
+      cases r4 with
+      | none => rfl
+      | some img =>
+        simp only
+        split
+        · rcases readStruct f4 (optSize (decide (fieldVal img fhMachine = (machineAmd64 : Int)))) with ⟨r5, f5⟩
+          cases r5 with
+          | none => rfl
+          | some opt =>
+            simp only
+            rcases readSections (fieldVal img fhNumberOfSections).toNat f5 with ⟨r6, f6⟩
+            cases r6 with
+            | none => rfl
+            | some secs =>
+              simp only
+              rw [seekSet_total]
+        · rfl
 
-/-- with an unlimited seek the refined model is the C18 model -/
-theorem peFindStagePrependAppendL_bytesIO (L : Nat) (f : PyFile) (h : f.kind = .bytesIO) :
-    ∃ r, peFindStagePrependAppendL L f = .ok r := findStagePrependAppendL_ok L f (Or.inl h)
+theorem readSections_frame : ∀ (n : Nat) (g : PyFile),
+    (readSections n g).2.data = g.data ∧ (readSections n g).2.kind = g.kind := by
+  intro n
+  induction n with
+  | zero => intro g; exact ⟨rfl, rfl⟩
+  | succ n ih =>
+    intro g
+    unfold readSections
+    obtain ⟨hd, hk⟩ := readStruct_data g sectionSize
+    rcases hr : readStruct g sectionSize with ⟨r1, g1⟩
+    rw [hr] at hd hk
+    simp only at hd hk
+    cases r1 with
+    | none => exact ⟨hd, hk⟩
+    | some s =>
+      simp only
+      obtain ⟨i1, i2⟩ := ih g1
+      rcases hr2 : readSections n g1 with ⟨r2, g2⟩
+      rw [hr2] at i1 i2
+      simp only at i1 i2
+      cases r2 with
+      | none => exact ⟨by rw [i1, hd], by rw [i2, hk]⟩
+      | some ss => exact ⟨by rw [i1, hd], by rw [i2, hk]⟩
 
+/-- the result of the current code does not depend on the limit of the file object, as long as the file itself fits
+below it: a rejected seek and an accepted seek beyond the end of the data both give `(prepend, None)` -/
+theorem prependAppendAtG_limit_irrelevant (L : Nat) (f : PyFile) (o : Nat) (hL : f.data.length ≤ L) :
+    (prependAppendAtG true (seekL L) f o).1 = (prependAppendAtG true PyFile.seekSet f o).1 := by
+  unfold prependAppendAtG
+  dsimp only
+  have hd : (if o > 0 then (some ((seekNat f 0).read (o : Int)).1, ((seekNat f 0).read (o : Int)).2) else (none, f)).2.data = f.data := by
+    split <;> rfl
+  generalize (if o > 0 then (some ((seekNat f 0).read (o : Int)).1, ((seekNat f 0).read (o : Int)).2) else (none, f)) = pf at hd
+  obtain ⟨hd2, _⟩ := readStruct_data (seekNat pf.2 o) dosHeaderSize
+  rcases hr : readStruct (seekNat pf.2 o) dosHeaderSize with ⟨r1, f2⟩
+  rw [hr] at hd2
+  simp only at hd2
+  cases r1 with
+  | none => rfl
+  | some mz =>
+    simp only
+    cases hs : f2.seekSet (fieldVal mz dosLfanew + (o : Int) + 4) with
+    | error e => rfl
+    | ok vf3 =>
+      obtain ⟨v, f3⟩ := vf3
+      have hd3 : f3.data = f2.data := by
+        unfold PyFile.seekSet at hs
+        split at hs
+        · cases hs
+        · injection hs with hs
+          rw [← (Prod.mk.inj hs).2]
+      simp only
+      obtain ⟨hd4, _⟩ := readStruct_data f3 fileHeaderSize
+      rcases hr4 : readStruct f3 fileHeaderSize with ⟨r4, f4⟩
+      rw [hr4] at hd4
+      simp only at hd4
+      cases r4 with
+      | none => rfl
+      | some img =>
+        simp only
+        split
+        · obtain ⟨hd5, _⟩ := readStruct_data f4 (optSize (decide (fieldVal img fhMachine = (machineAmd64 : Int))))
+          rcases hr5 : readStruct f4 (optSize (decide (fieldVal img fhMachine = (machineAmd64 : Int)))) with ⟨r5, f5⟩
+          rw [hr5] at hd5
+          simp only at hd5
+          cases r5 with
+          | none => rfl
+          | some opt =>
+            simp only
+            obtain ⟨hd6, _⟩ := readSections_frame (fieldVal img fhNumberOfSections).toNat f5
+            rcases hr6 : readSections (fieldVal img fhNumberOfSections).toNat f5 with ⟨r6, f6⟩
+            rw [hr6] at hd6
+            simp only at hd6
+            cases r6 with
+            | none => rfl
+            | some secs =>
+              simp only
+              have hdata : f6.data = f.data := by rw [hd6, hd5, hd4, hd3, hd2]; exact hd
+              have ht0 := totalSize_nonneg opt (decide (fieldVal img fhMachine = (machineAmd64 : Int))) secs
+              by_cases hle : (o : Int) + totalSize opt (decide (fieldVal img fhMachine = (machineAmd64 : Int))) secs ≤ (L : Int)
+              · rw [seekL_le L f6 _ hle]
+              · obtain ⟨e, he, hc⟩ := seekL_gt L f6 ((o : Int) + totalSize opt (decide (fieldVal img fhMachine = (machineAmd64 : Int))) secs) (by omega)
+                rw [he, seekSet_total]
+                simp only [hc, Bool.and_self, if_true]
+                have hemp : (({ f6 with pos := ((o : Int) + totalSize opt (decide (fieldVal img fhMachine = (machineAmd64 : Int))) secs).toNat } : PyFile).read 1024).1 = [] := by
+                  rw [show ((1024 : Int)) = ((1024 : Nat) : Int) from rfl, PyFile.read_nonneg]
+                  have : f6.data.drop ((o : Int) + totalSize opt (decide (fieldVal img fhMachine = (machineAmd64 : Int))) secs).toNat = [] := by
+                    apply List.drop_eq_nil_iff.mpr
+                    rw [hdata]; omega
+                  simp only [this, List.take_nil]
+                rw [hemp]
+                rfl
+        · rfl
+
+theorem findStagePrependAppendL_eq (L : Nat) (f : PyFile) (hL : f.data.length ≤ L) :
+    peFindStagePrependAppendL L f = peFindStagePrependAppend f := by
+  unfold peFindStagePrependAppendL peFindStagePrependAppendG peFindStagePrependAppend findStagePrependAppend
+  rcases hm : findMzOffset f (some 0) MAXRANGE with ⟨r, f1⟩
+  cases r with
+  | none => rfl
+  | some o =>
+    simp only
+    obtain ⟨hd, _⟩ := findMz_none_or_some f (some 0) MAXRANGE
+    rw [hm] at hd
+    simp only at hd
+    rw [prependAppendAtG_limit_irrelevant L f1 o (by rw [hd]; exact hL), prependAppendAtG_seekSet]
 
 end limit
 
